@@ -148,4 +148,9 @@ theorem rounding_before_comparison (l : List (Scored Rat)) :
   refine ⟨_, List.mem_map.mpr ⟨_, ha', rfl⟩, rfl, ?_⟩
   exact (mem_positionInRanking _ _ hs _).mpr ⟨_, hb', rfl, Or.inl ⟨fun e => hid e.symm, hv.symm⟩⟩
 
+
+/-- the constants this property depends on were re-read from the working tree on this run (none of
+    them fell back to its pinned value because its declaration could not be located) -/
+theorem facts_fresh : (Facts.staleFacts.all fun n => !["roundPrecision"].contains n) = true := by decide
+
 end Rdm.Props.C04
